@@ -267,6 +267,10 @@ class C11Machine(_BatchBase):
         small = tier == 'quick'
         exp = expgen.gen_experiment(rng, faults=True, max_samples=3 if small else 5, max_beads=1 if small and rng.chance(0.7) else 2,
                                     small=small)
+        if index % 13 == 5:
+            # replicate-pair arm (stream-neutral): two healthy float rows, the second the first a fraction of a percent off,
+            # so that anything a row leaves behind that is keyed by nearly equal derived parameters reaches the next row
+            expgen.add_replicate_pair(exp, index)
         return {'exp': exp, 'stub': rng.chance(0.3), 'seed': rng.randint(0, 2 ** 31 - 1),
                 'second_pass': rng.randint(0, 5) if rng.chance(0.35) else None}
 
